@@ -41,6 +41,7 @@ func init() {
 		"(*bytes.Buffer).WriteRune":   intrBufWrite,
 		"(*sync.Once).Do":             intrOnceDo,
 		"strconv.Quote":               intrStrconvQuote,
+		"errors.New":                  intrErrorsNew,
 		"unicode/utf8.DecodeRune":     intrDecodeRune,
 		"unicode/utf8.EncodeRune":     intrEncodeRune,
 		"unicode/utf16.IsSurrogate":   intrIsSurrogate,
@@ -170,6 +171,13 @@ func intrStringsRepeat(f *Frame, callee *ssa.Function, args []Val, pc string, st
 	f.safe(pc, "repeat", posOf(ins, f), fmt.Sprintf("(>= %s 0)", args[1].T), "strings.Repeat: count is not negative")
 	r := vc.freshConst("rep", "Str")
 	return Val{T: r, Typ: callee.Signature.Results().At(0).Type()}, pc
+}
+
+// errors.New(text): a non-nil error value (fresh), no effect, no panic
+func intrErrorsNew(f *Frame, callee *ssa.Function, args []Val, pc string, st *State, ins ssa.Value) (Val, string) {
+	e := f.vc.freshConst("newerr", "Iface")
+	f.vc.assert(fmt.Sprintf("(not (= (iface_tag %s) 0))", e))
+	return Val{T: e, Typ: callee.Signature.Results().At(0).Type()}, pc
 }
 
 // bytes.Trim & co: assumed pure and panic-free; the result is nil or a sub-slice of the first argument
